@@ -210,6 +210,23 @@ def r3_complete_scaling_list(idx, r):
         r.require(second not in names, f"list:not-narrowed:{norm(d)[:50]}", f, node=d,
                   msg=f"`{norm(d)[:80]}` removes or selects by `{second}`: the multigroup fluxes then leave the list that the third-to-full-core changer triples, "
                       "so their full-core totals are not three times the third-core totals")
+    # scale and unscale of the centre assembly must be the SAME operation with the direction's operator on every kind of
+    # value (scalar, array, list): a literal `* 3` in one branch triples on the way back as well
+    sc = idx.method(GC + ".ThirdCoreHexToFullCoreChanger", "_scaleBlockVolIntegratedParams")
+    if sc is None:
+        raise AnchorMissing("ThirdCoreHexToFullCoreChanger._scaleBlockVolIntegratedParams")
+    opname = next((norm(x.targets[0]) for x in walk_local(sc.node) if isinstance(x, ast.Assign) and isinstance(x.value, ast.Attribute) and dotted(x.value) in ("operator.mul", "operator.truediv")), None)
+    if opname is None:
+        raise AnalysisError("_scaleBlockVolIntegratedParams: direction operator not found")
+    sts = [x for x in iter_stores(sc.node) if x.kind == "subscript" and ".p[" in norm(x.node)]
+    if not sts:
+        raise AnalysisError("_scaleBlockVolIntegratedParams: parameter stores not found")
+    for i, st_ in enumerate(sts):
+        uses_op = any(isinstance(x, ast.Call) and dotted(x.func) == opname for x in ast.walk(st_.value))
+        literal = any(isinstance(x, ast.BinOp) and isinstance(x.op, (ast.Mult, ast.Div)) and any(isinstance(y, ast.Constant) and y.value in (3, 3.0) for y in (x.left, x.right)) for x in ast.walk(st_.value))
+        r.require(uses_op and not literal, f"scale:branch{i}:uses-direction-operator", sc, node=st_.stmt,
+                  msg=f"`{norm(st_.stmt)[:80]}` does not go through the direction's operator `{opname}`: this kind of value is scaled the same way when growing and when restoring "
+                      "(x3 then x3 again: nine times the original after a round trip)")
     # the symmetry change itself drops every cached symmetry-dependent value in the core
     from .c02 import r6_unconditional_invalidation
     r6_unconditional_invalidation(idx, r, only={"armi.reactor.cores.Core.symmetry", "armi.reactor.assemblies.Assembly.moveTo"})
